@@ -263,6 +263,45 @@ def iterative_case(rnd, T=8):
     return ev, info
 
 
+def method2_case(rnd, T=6):
+    """the second solution method of the hand-coded SIM (RunMethod2: one call per period) against the closed form"""
+    from sfc_models.gl_book.model_SIM_iterative import ModelSIMiterative
+    # the method gives up after 100 sweeps: only clear contractions (q = a1*(1-theta) <= 0.45) are asked of it
+    th = Fraction(rnd.randint(10, 50), 100)
+    a1 = Fraction(rnd.randint(30, 50), 100)
+    a2 = Fraction(rnd.randint(5, 60), 100)
+    H0 = Fraction(rnd.randint(0, 120))
+    G = [Fraction(rnd.randint(0, 40)) for _ in range(T + 1)]
+    case = {'model': 'SIM', 'a1': rat(a1), 'a2': rat(a2), 'theta': rat(th), 'G': [rat(g) for g in G[1:]],
+            'H0': rat(H0), 'YD0': [0, 1], 'B0': [0, 1]}
+    cf = closed_form(case, T)
+    ev = {'ev': 'Iterative', 'ran': False, 'close': False, 'method': 2}
+    info = {'case': case, 'method': 'RunMethod2'}
+    try:
+        obj = ModelSIMiterative()
+        obj.theta, obj.alpha1, obj.alpha2 = float(th), float(a1), float(a2)
+        obj.H = [float(H0)]
+        obj.G = [float(g) for g in G]
+        for _ in range(T):
+            obj.RunMethod2()
+        ev['ran'] = True
+        close = True
+        worst = 0.0
+        for k in range(1, T + 1):
+            for v, series in (('Y', obj.Y), ('YD', obj.YD), ('T', obj.tax), ('C', obj.C), ('H', obj.H)):
+                err = abs(series[k] - float(cf[k - 1][v]))
+                # the sweep stops when the summed change of the vector is <= 1e-3; stock errors add up over k
+                lim = 0.01 * (k + 1)
+                worst = max(worst, err / lim)
+                if err > lim:
+                    close = False
+        ev['close'] = close
+        info['worst_over_bound'] = worst
+    except Exception as e:  # noqa
+        info['error'] = '%s: %s' % (type(e).__name__, e)
+    return ev, info
+
+
 def random_case(rnd, model, T):
     def dec(lo, hi, digits):
         q = 10 ** digits
@@ -342,6 +381,11 @@ def run(rep):
         traces.append((len(traces), [ev]))
         infos.append((info.get('case', {}), info))
         rep.add_case({'kind': 'iterative', 'case': info.get('case')}, True)
+    for i in range(max(4, n_iter // 2)):
+        ev, info = method2_case(rnd)
+        traces.append((len(traces), [ev]))
+        infos.append((info.get('case', {}), info))
+        rep.add_case({'kind': 'iterative-method2', 'case': info.get('case')}, True)
     judge(rep, traces, infos)
 
 
